@@ -1398,8 +1398,10 @@ where
                 }
             }
             // [lookahead ∉ ClassSetReservedDoublePunctuator] SourceCharacter but not ClassSetSyntaxCharacter
-            0x28 /* ( */ | 0x29 /* ) */ | 0x7B /* { */ | 0x7D /* } */ | 0x2F /* / */
-            | 0x2D /* - */ | 0x7C /* | */ => error("Invalid class set character"),
+            0x28 /* ( */ | 0x29 /* ) */ | 0x5B /* [ */ | 0x5D /* ] */ | 0x7B /* { */
+            | 0x7D /* } */ | 0x2F /* / */ | 0x2D /* - */ | 0x7C /* | */ => {
+                error("Invalid class set character")
+            }
             _ => {
                 // A ClassSetReservedDoublePunctuator is the same punctuator twice.
                 if Self::is_class_set_reserved_double_punctuator(cp) && self.peek() == Some(cp) {
